@@ -1136,8 +1136,9 @@ struct W1
     int  ev_counts[EV_NKINDS];
     unsigned char kinds[256];
     std::string record;        // gating record
+    bool clean_pre;            // pre-state values pairwise distinct and none moved-from
     TrialResult () : skipped (false), violated (false), exc (0), post_size (0), post_cap (0),
-                     fault_points (0), n_alloc (0), n_dealloc (0) { }
+                     fault_points (0), n_alloc (0), n_dealloc (0), clean_pre (true) { }
   };
 
   struct Explorer
@@ -1155,9 +1156,12 @@ struct W1
     std::FILE                      *emitf;
     std::set<long>                  crash_classes;
 
-    struct StateRec { int size, cap; History hist; bool post_fault; };
+    struct StateRec { int size, cap; History hist; bool post_fault; bool secondary; };
     std::vector<StateRec>   states;
     std::map<int, int>      seen;
+    std::set<int>           second;
+    std::map<std::uint64_t, std::uint64_t> first_rec;
+    std::map<std::uint64_t, std::string>   first_rec_text;
 
     Explorer (const Options& o, const std::set<std::uint64_t>& sk, std::uint64_t stop)
       : opt (o), skip (sk), seq (0), stop_at (stop), t0 (now_s ()), stopped (false),
@@ -1212,6 +1216,13 @@ struct W1
         pre.data = w.v->data ();
         pre.values = w.model;
 
+        {
+          std::vector<int> sorted = pre.values;
+          std::sort (sorted.begin (), sorted.end ());
+          for (std::size_t k = 0; k < sorted.size (); ++k)
+            if (sorted[k] == MOVED_VALUE || sorted[k] == 0 || (k && sorted[k] == sorted[k - 1]))
+              tr.clean_pre = false;
+        }
         Ctx cx;
         int arg_base = w.next_val;
         bool known = exec (w, op, cx);
@@ -1325,14 +1336,63 @@ struct W1
       }
       int k = key_of (tr.post_size, tr.post_cap);
       if (seen.count (k))
+      {
+        // Second witness of a shape: the first history that reaches it *through a thrown
+        // exception in its last step*. It is expanded with the whole alphabet as well, and its
+        // observations must equal the first witness's (history independence; C06 "usable").
+        if (opt.witnesses >= 2 && op.f1 != 0 && ! second.count (k) && from.hist.size () < 40)
+        {
+          second.insert (k);
+          StateRec sr;
+          sr.size = tr.post_size; sr.cap = tr.post_cap;
+          sr.hist = from.hist; sr.hist.push_back (op);
+          sr.post_fault = true; sr.secondary = true;
+          states.push_back (sr);
+          ++st.post_fault_states;
+        }
         return;
+      }
       seen.insert (std::make_pair (k, static_cast<int> (states.size ())));
       StateRec sr;
       sr.size = tr.post_size; sr.cap = tr.post_cap;
       sr.hist = from.hist; sr.hist.push_back (op);
       sr.post_fault = from.post_fault || op.f1 != 0;
+      sr.secondary = false;
       states.push_back (sr);
       if (op.f1) ++st.post_fault_states;
+    }
+
+    // History-independence oracle: a fault-free operation applied from the second (post-fault)
+    // witness of a shape must give the same provenance-normalised record as from the first.
+    void witness_compare (const StateRec& cur, const Op& op, const TrialResult& tr)
+    {
+      if (tr.skipped || tr.violated)
+        return;
+      std::string key = itos (key_of (cur.size, cur.cap)) + "|" + op_to_token (op);
+      std::uint64_t h = fnv_str (1469598103934665603ULL, tr.record);
+      if (! cur.secondary)
+      {
+        if (opt.witnesses >= 2 && tr.clean_pre)
+        {
+          first_rec[fnv_str (1469598103934665603ULL, key)] = h;
+          if (opt.verbose)
+            first_rec_text[fnv_str (1469598103934665603ULL, key)] = tr.record;
+        }
+        return;
+      }
+      if (! tr.clean_pre)
+        return;   // moved-from / duplicate values in the post-fault state: provenance is ambiguous
+      ++st.witnesses_checked;
+      std::map<std::uint64_t, std::uint64_t>::const_iterator it = first_rec.find (fnv_str (1469598103934665603ULL, key));
+      if (it != first_rec.end () && it->second != h)
+      {
+        Viol v;
+        v.props = "C06,C01";
+        v.oracle = "history-dependence";
+        v.detail = "the same operation from the same (size, capacity) shape behaves differently when the shape was reached through a thrown exception: " + tr.record
+                 + (opt.verbose ? " VERSUS " + first_rec_text[fnv_str (1469598103934665603ULL, key)] : std::string ());
+        sink.add (config_name (), cur.hist, op, v);
+      }
     }
 
     void gate (const TrialResult& tr, const std::string& label)
@@ -1371,7 +1431,7 @@ struct W1
         emitf = std::fopen (opt.emit.c_str (), "w");
 
       StateRec init;
-      init.size = 0; init.cap = static_cast<int> (N); init.post_fault = false;
+      init.size = 0; init.cap = static_cast<int> (N); init.post_fault = false; init.secondary = false;
       states.push_back (init);
       seen.insert (std::make_pair (key_of (0, static_cast<int> (N)), 0));
 
@@ -1389,8 +1449,12 @@ struct W1
           if (r0.skipped) continue;
           ++st.transitions;
           note_outcome (cur.size, cur.cap, op, r0);
-          gate (r0, "0");
-          info (r0, op);
+          if (! cur.secondary)
+          {
+            gate (r0, "0");
+            info (r0, op);
+          }
+          witness_compare (cur, op, r0);
           if (emitf && ! r0.violated && r0.exc == EX_NONE)
             emit_trace (emitf, cur.hist, op);
           if (st.transitions % 20011 == 1 && sink.samples.size () < 12)
@@ -1416,9 +1480,10 @@ struct W1
             if (r1.skipped) continue;
             ++st.fault_trials;
             note_outcome (cur.size, cur.cap, f, r1);
-            if (is_alloc)
+            if (is_alloc && ! cur.secondary)
               gate (r1, "A" + itos (alloc_idx));
-            info (r1, f);
+            if (! cur.secondary)
+              info (r1, f);
             if (st.fault_trials % 50021 == 1 && sink.samples.size () < 12)
               sink.samples.push_back ("from (size " + itos (cur.size) + ", capacity " + itos (cur.cap) + ") apply "
                                       + op_describe (f) + " [" + fault_kind_name (r0.kinds[k]) + " throws] => (size "
@@ -1439,7 +1504,8 @@ struct W1
               if (r2.skipped) continue;
               ++st.dbl_fault_trials;
               note_outcome (cur.size, cur.cap, g, r2);
-              info (r2, g);
+              if (! cur.secondary)
+                info (r2, g);
               successor (cur, g, r2);
             }
           }
@@ -1482,11 +1548,11 @@ struct W1
                     opt.S, opt.CAPB, opt.K, opt.L, opt.R, opt.faults, opt.fault_kinds, opt.focus);
       std::fprintf (f, " \"stats\":{\"states\":%ld,\"transitions\":%ld,\"fault_trials\":%ld,\"dbl_fault_trials\":%ld,"
                        "\"boundary_edges\":%ld,\"replays\":%ld,\"post_fault_states\":%ld,\"distinct_outcomes\":%ld,"
-                       "\"crashes\":%ld,\"skipped_crash_class\":%ld,\"wall\":%.3f},\n",
+                       "\"crashes\":%ld,\"skipped_crash_class\":%ld,\"witnesses_checked\":%ld,\"wall\":%.3f},\n",
                     ex.st.states, ex.st.transitions, ex.st.fault_trials, ex.st.dbl_fault_trials,
                     ex.st.boundary_edges, ex.st.replays, ex.st.post_fault_states,
                     static_cast<long> (ex.st.outcomes.size ()), static_cast<long> (crashes.size ()),
-                    ex.st.skipped_crash_class, ex.st.wall);
+                    ex.st.skipped_crash_class, ex.st.witnesses_checked, ex.st.wall);
       std::fprintf (f, " \"exhaustive\":%s,\"digest\":\"%016llx\",\"info_digest\":\"%016llx\",\n",
                     ex.st.exhaustive ? "true" : "false",
                     static_cast<unsigned long long> (ex.st.digest),
